@@ -40,6 +40,8 @@ RULE_DOC = {
     'R24': '`uN::from_le_bytes(B[A..A+k].try_into().unwrap())` (k = 4 for u32, 8 for u64; the width is checked textually) -> `get_le_uN(B, A)`; contract ASSUMED: requires A + k <= len (so the slice bound becomes a proof obligation), returns unleK(B[A..A+k]); with the ASSUMED axiom unleK(leK(x)) == x, |leK(x)| == k',
     'R25': '`&B[A..]` -> `suffix(B, A)` (requires A <= len; ensures the view is the subrange)',
     'R26': '`io::Error::new(io::ErrorKind::InvalidData, "..")` -> `io_invalid_data()` (opaque io::Error; only Ok/Err is observed)',
+    'R30': '`let V = E.iter().map(|r| F).sum();` -> `let mut V: usize = 0; for r in E.iter() { V += F; }` (Iterator::sum over usize: the additions become overflow obligations)',
+    'R31': 'std::io::Cursor over a byte slice: `io::Cursor::new(B)` -> `ByteCursor::new(B)`, `u64::from_le_bytes(buf)` (buf: [u8; 8]) -> `le_u64_of(buf)`; ByteCursor::read_exact is ASSUMED to behave as Cursor<&[u8]>::read_exact (8 bytes copied and consumed, or Err with nothing consumed)',
     'R28': '`E.last().is_some_and(|c| P)` -> `match E.last() { Some(c) => P, None => false }` (definition of Option::is_some_and; P verbatim)',
     'R29': '`for P in X.drain(..) {` -> `let drained__ = drain_all(&mut X); for e__ in drained__ { let P = e__;` - drain_all is a helper whose body is `X.drain(..).collect()`; contract ASSUMED (std): it returns the old elements in order and leaves X empty',
     'R22': '`if let Some(&x) = E {` -> `if let Some(x__r) = E { let x = *x__r;` (definition of a reference pattern; Verus has no ref patterns)',
@@ -291,6 +293,27 @@ class Piece:
 
     def R26(self):
         return self.resub('R26', r'io::Error::new\(\s*io::ErrorKind::InvalidData,\s*"[^"]*",?\s*\)', 'io_invalid_data()')
+
+    def R30(self, var):
+        text = self.text
+        code = scan(text)
+        m = re.search(r'let %s = ([\w\.]+?)(?=\s*\.iter\(\))' % re.escape(var), text)
+        if not m:
+            raise LostAnchor('rule R30 in %s: `let %s = <seq>.iter().map(..).sum()` not found' % (self.label, var))
+        calls, end = self._chain(text, code, m.end())
+        fm = re.match(r'\s*\|(\w+)\|\s*(.*)$', calls[1][1], re.S) if len(calls) > 1 else None
+        if [c[0] for c in calls] != ['iter', 'map', 'sum'] or not fm or text[end:end + 1] != ';':
+            raise LostAnchor('rule R30 in %s: chain shape' % self.label)
+        ind = re.match(r'[ \t]*', text[_line_start(text, m.start()):]).group(0)
+        new = 'let mut %s: usize = 0;\n%sfor %s in %s.iter() {\n%s    %s += %s;\n%s}' % (var, ind, fm.group(1), m.group(1), ind, var, fm.group(2).strip(), ind)
+        self.text = text[:m.start()] + new + text[end + 1:]
+        self._fired('R30', 'iter().map(f).sum() -> loop with +=')
+        return self
+
+    def R31(self):
+        self.resub('R31', r'io::Cursor::new\(', 'ByteCursor::new(')
+        self.resub('R31', r'u64::from_le_bytes\((\w+)\)', r'le_u64_of(\1)')
+        return self
 
     def R28(self):
         return self.resub_opt('R28', r'([\w\.]+)\.last\(\)\.is_some_and\(\|(\w+)\|\s*([^\n]+?)\);', lambda m: 'match %s.last() { Some(%s) => %s, None => false };' % (m.group(1), m.group(2), m.group(3)))
